@@ -1353,3 +1353,172 @@ func assignCommitsRule(p *chk.Prog, r *chk.Report) {
 	}, false, f.ContainsPat("RECV.assign(K, AL)", chk.H("K", isParamIdx(f, 0))))
 	x.Check("Assign:success-needs-assign", posOf(w, f), !w.Found, "", "Assign can report success without recording the allocation (the service's ports / sharing key / pool counters keep their previous values)")
 }
+
+// pureCheckRule: the listed functions have no effect outside their own locals. A store is local when its target is an
+// identifier declared in the function (not a parameter that is a pointer / map / slice being written through), or an
+// element / field of a value created in the function (a composite literal, make, new or append result held in a local).
+func pureCheckRule(p *chk.Prog, x *chk.R, fns [][3]string) {
+	for _, fn := range fns {
+		f := p.LookupFunc(fn[0], fn[1], fn[2])
+		if f == nil {
+			continue // folded into its callers: nothing to judge here (the callers' rules apply)
+		}
+		localValue := func(e ast.Expr) bool {
+			// the root of the written place is a local that holds a value made here
+			root := e
+			for {
+				switch v := ast.Unparen(root).(type) {
+				case *ast.SelectorExpr:
+					root = v.X
+					continue
+				case *ast.IndexExpr:
+					root = v.X
+					continue
+				case *ast.StarExpr:
+					root = v.X
+					continue
+				}
+				break
+			}
+			id, ok := ast.Unparen(root).(*ast.Ident)
+			if !ok {
+				return false
+			}
+			v, ok := f.ObjOf(id).(*types.Var)
+			if !ok || v.IsField() || v.Pkg() == nil || v.Parent() == v.Pkg().Scope() {
+				return false
+			}
+			if !(f.Body.Pos() <= v.Pos() && v.Pos() <= f.Body.End()) {
+				return false // a parameter or the receiver
+			}
+			if ast.Unparen(e) == ast.Expr(id) {
+				return true // the local variable itself
+			}
+			// every value the local ever holds was created in this function
+			as := assignsTo(f, v)
+			if len(as) == 0 {
+				// declared with var / := only: look at the declaration
+				return declaredFresh(f, v)
+			}
+			for _, a := range as {
+				st, isAs := a.(*ast.AssignStmt)
+				if !isAs || len(st.Lhs) != len(st.Rhs) {
+					return false
+				}
+				for i, l := range st.Lhs {
+					if lid, isId := l.(*ast.Ident); isId && f.ObjOf(lid) == types.Object(v) && !freshValue(f, st.Rhs[i], v) {
+						return false
+					}
+				}
+			}
+			return true
+		}
+		var bad ast.Node
+		chk.InspectNoLit(f.Body, func(n ast.Node) bool {
+			if bad != nil {
+				return false
+			}
+			switch st := n.(type) {
+			case *ast.AssignStmt:
+				for _, l := range st.Lhs {
+					if id, isId := ast.Unparen(l).(*ast.Ident); isId && id.Name == "_" {
+						continue
+					}
+					if !localValue(l) {
+						bad = st
+					}
+				}
+			case *ast.IncDecStmt:
+				if !localValue(st.X) {
+					bad = st
+				}
+			case *ast.CallExpr:
+				if id, isId := st.Fun.(*ast.Ident); isId && (id.Name == "delete" || id.Name == "clear") {
+					if _, isB := f.Info().Uses[id].(*types.Builtin); isB && len(st.Args) > 0 && !localValue(st.Args[0]) {
+						bad = st
+					}
+				}
+			case *ast.SendStmt:
+				bad = st
+			}
+			return true
+		})
+		pos := f.Pos()
+		if bad != nil {
+			pos = bad.Pos()
+		}
+		x.Check(fn[2]+":no-store-outside-locals", pos, bad == nil, "", fn[2]+" changes state that outlives the call (a recorded sharing key, an allocation, a pool): a check that is also run for candidates that are not taken must not have effects")
+	}
+}
+
+// declaredFresh: the variable is declared by `var v T` (zero value) or `v := <fresh value>`.
+func declaredFresh(f *chk.Fn, v *types.Var) bool {
+	ok := false
+	ast.Inspect(f.Body, func(n ast.Node) bool {
+		switch st := n.(type) {
+		case *ast.ValueSpec:
+			for i, nm := range st.Names {
+				if f.Info().Defs[nm] == types.Object(v) {
+					ok = len(st.Values) == 0 || (i < len(st.Values) && freshValue(f, st.Values[i], v))
+				}
+			}
+		case *ast.AssignStmt:
+			if st.Tok == token.DEFINE && len(st.Lhs) == len(st.Rhs) {
+				for i, l := range st.Lhs {
+					if id, isId := l.(*ast.Ident); isId && f.Info().Defs[id] == types.Object(v) {
+						ok = freshValue(f, st.Rhs[i], v)
+					}
+				}
+			}
+		}
+		return true
+	})
+	return ok
+}
+
+// freshValue: the expression creates its value here (literal, make, new, a constant, nil) or extends the same local by
+// append; anything loaded from elsewhere (a parameter's field, a map element) is not fresh.
+func freshValue(f *chk.Fn, e ast.Expr, self *types.Var) bool {
+	e = ast.Unparen(e)
+	if f.IsNilLit(e) || f.ConstVal(e) != nil {
+		return true
+	}
+	switch v := e.(type) {
+	case *ast.CompositeLit, *ast.FuncLit, *ast.BasicLit:
+		return true
+	case *ast.UnaryExpr:
+		if v.Op == token.AND {
+			_, isLit := ast.Unparen(v.X).(*ast.CompositeLit)
+			return isLit
+		}
+	case *ast.CallExpr:
+		if id, ok := v.Fun.(*ast.Ident); ok {
+			if _, isB := f.Info().Uses[id].(*types.Builtin); isB {
+				switch id.Name {
+				case "make", "new":
+					return true
+				case "append":
+					return len(v.Args) > 0 && (f.ObjOf(ast.Unparen(v.Args[0])) == types.Object(self) || freshValue(f, v.Args[0], self))
+				}
+			}
+		}
+		// the result of a call is a value of its own unless it is a pointer / map / slice (which may alias state)
+		if tv, ok := f.Info().Types[e]; ok && tv.Type != nil {
+			switch tv.Type.Underlying().(type) {
+			case *types.Pointer, *types.Map, *types.Slice, *types.Chan, *types.Interface:
+				return false
+			}
+			return true
+		}
+	case *ast.Ident, *ast.SelectorExpr, *ast.IndexExpr, *ast.StarExpr, *ast.BinaryExpr:
+		// a copied value: fresh when it cannot alias (not pointer-like)
+		if tv, ok := f.Info().Types[e]; ok && tv.Type != nil {
+			switch tv.Type.Underlying().(type) {
+			case *types.Pointer, *types.Map, *types.Slice, *types.Chan, *types.Interface, *types.Signature:
+				return false
+			}
+			return true
+		}
+	}
+	return false
+}
